@@ -16,6 +16,7 @@ EXPLANATION = (
     "goes through From<Vec<i32>>. R14.5 = R07.2 (single bincode configuration). R14.6 witness: deserialising outside `unsafe` "
     "does not compile (E0133)."
 )
+THOROUGH_CONFIGS = [C.NO_CHARWISE, C.NO_CACHE, C.NO_FIX, C.NO_TAG, C.SIMD]
 NOT_DECIDED = ["behavioural equality of the deserialised predictor (values)", "daachorse's serialize/deserialize_unchecked contract"]
 
 PAIRS = [
@@ -50,8 +51,9 @@ def norm_ty(g):
     t = out.strip()
     t = re.sub(r"&'\{erased\} |&'[a-z_]+ |&", "", t)
     t = t.replace(", std::alloc::Global", "")
-    t = t.replace("std::vec::Vec<u8>", "bytes").replace("[u8]", "bytes")
-    t = re.sub(r"std::vec::Vec<(.*)>", r"seq<\1>", t)
+    t = C.tyn(t).replace(", S::alloc::Global", "")
+    t = t.replace("S::vec::Vec<u8>", "bytes").replace("[u8]", "bytes")
+    t = re.sub(r"S::vec::Vec<(.*)>", r"seq<\1>", t)
     return t
 
 
@@ -92,13 +94,14 @@ def source_field(it, o, v, depth=0):
 
 
 def run(chk):
-    w = facts.world("W")
-    chk.configs.add("W")
+    w = C.world_for(chk)
     for rid, txt in (("R14.1", "encode/decode sequences agree"), ("R14.2", "automaton serialize <-> deserialize_unchecked"), ("R14.3", "remainder slice"),
                      ("R14.4", "fixed weight vectors"), ("R07.2", "single bincode configuration (shared with C07)"), ("R14.6", "unsafe witness")):
         chk.rule(rid, txt)
     n_pairs = 0
     for adt in PAIRS:
+        if chk.config != "W" and w.adt(adt) is None:
+            continue   # type not part of this configuration
         enc, ei = C.impl_fn(w, adt, "bincode::enc::Encode", "encode")
         dec, di = C.impl_fn(w, adt, "bincode::de::Decode", "decode", hand_written=True)
         if dec is None:
@@ -195,9 +198,11 @@ def run(chk):
                 nz = forms.Normalizer(itd, o)
                 okb = okb or "borrow_decode" in nz.value_atom(e[3][0]) or "borrow_decode" in C.show_arg(nz, e[3][0])
             chk.ob("R14.2", "%s:deserialises-decoded-bytes" % short, okb, "deserialize_unchecked is not applied to the byte slice decoded from the stream", site=C.site(bd))
-    chk.floor("R14.1", "hand-written codec pairs", n_pairs, 7)
+    chk.floor("R14.1", "hand-written codec pairs", n_pairs, 7, other=5)
     c = w.crates["vaporetto"]
     for adt in DERIVED:
+        if chk.config != "W" and w.adt(adt) is None:
+            continue
         enc = [i for i in c.impls if i["self_adt"] == adt and i["trait"] == "bincode::enc::Encode"]
         dec = [i for i in c.impls if i["self_adt"] == adt and i["trait"] in ("bincode::de::Decode", "bincode::de::BorrowDecode") and i.get("derive") in ("Decode", "BorrowDecode")]
         ok = len(enc) == 1 and enc[0].get("derive") == "Encode" and len(dec) >= 1
@@ -225,13 +230,18 @@ def run(chk):
         if o.kind != "return":
             continue
         var = [c[2] for s, c in o.cons.items() if c[0] == "varis" and c[1].endswith("WeightVector")]
+        wv = w.adt("vaporetto::predictor::WeightVector")
+        if not var and wv and len(wv["variants"]) == 1:
+            var = [wv["variants"][0]["name"]]
         nz = forms.Normalizer(ite, o)
         for _, ty, ev in wire_events(ite, be, o, "enc"):
             a = ev[3][0]
             v = ite.resolve(o, ite._read(o, a[1])) if a[0] == "ref" else a
             rows[var[0] if var else "?"] = (ty, nz.value_atom(v) if v[0] != "ref" else "&" + nz.path_atom(v[1]))
     fx = rows.get("Fixed")
-    chk.ob("R14.4", "fixed:trimmed-vec", fx is not None and fx[0] == "seq<i32>" and "to_vec" in fx[1] and "trim_end_zeros" in fx[1], "a Fixed weight vector is encoded as %s; expected trim_end_zeros(w).to_vec()" % (fx,), site=C.site(be), sample={"rows": {k: list(v) for k, v in rows.items()}})
+    has_fixed = any(v["name"] == "Fixed" for v in w.adt("vaporetto::predictor::WeightVector")["variants"])
+    if has_fixed or chk.config == "W":
+      chk.ob("R14.4", "fixed:trimmed-vec", fx is not None and fx[0] == "seq<i32>" and "to_vec" in fx[1] and "trim_end_zeros" in fx[1], "a Fixed weight vector is encoded as %s; expected trim_end_zeros(w).to_vec()" % (fx,), site=C.site(be), sample={"rows": {k: list(v) for k, v in rows.items()}})
     vr = rows.get("Variable")
     chk.ob("R14.4", "variable:vec", vr is not None and vr[0] == "seq<i32>", "a Variable weight vector is encoded as %s" % (vr,), site=C.site(be))
     dec, _ = C.impl_fn(w, "vaporetto::predictor::WeightVector", "bincode::de::Decode", "decode", hand_written=True)
@@ -243,4 +253,5 @@ def run(chk):
     chk.ob("R14.4", "decode-through-From<Vec<i32>>", okfrom, "WeightVector::decode does not build the value through From<Vec<i32>> (which zero-fills fixed vectors)", site=C.site(bd))
     # ---- R14.5 / R14.6
     c07.r072(chk, w)
-    witness.check(chk, "R14.6", "W146UnsafeDeserialize", 1, 1, "Predictor::deserialize_from_slice_unchecked must be an unsafe fn (E0133)")
+    if chk.config == "W":
+        witness.check(chk, "R14.6", "W146UnsafeDeserialize", 1, 1, "Predictor::deserialize_from_slice_unchecked must be an unsafe fn (E0133)")
